@@ -4,6 +4,7 @@ import Drpc.Driver.Migrate
 import Drpc.Driver.Stream
 import Drpc.Driver.Manager
 import Drpc.Driver.ManagerSys
+import Drpc.Driver.Serve
 import Drpc.Driver.Pool
 import Drpc.Driver.Err
 import Drpc.Driver.Gen
@@ -22,7 +23,7 @@ def dispatch (line : String) : String :=
   match (line.splitOn " ").filter (· ≠ "") with
   | [] => "bad-op"
   | cmd :: args =>
-    let r := (Wire.handle cmd args) <|> (Reader.handle cmd args) <|> (Migrate.handle cmd args) <|> (Stream.handle cmd args) <|> (Manager.handle cmd args) <|> (ManagerSys.handle cmd args) <|> (Pool.handle cmd args) <|> (Err.handle cmd args) <|> (Gen.handle cmd args) <|> (Metadata.handle cmd args) <|> (Http.handle cmd args) <|> (Compat.handle cmd args) <|> (Signal.handle cmd args)
+    let r := (Wire.handle cmd args) <|> (Reader.handle cmd args) <|> (Migrate.handle cmd args) <|> (Stream.handle cmd args) <|> (Manager.handle cmd args) <|> (ManagerSys.handle cmd args) <|> (Serve.handle cmd args) <|> (Pool.handle cmd args) <|> (Err.handle cmd args) <|> (Gen.handle cmd args) <|> (Metadata.handle cmd args) <|> (Http.handle cmd args) <|> (Compat.handle cmd args) <|> (Signal.handle cmd args)
     match r with
     | some s => s
     | none => "bad-op"
